@@ -189,6 +189,11 @@ func (s *scanSim) serve(req *pb.ScanRequest, ri int) (*pb.ScanResponse, error) {
 		return resp, nil
 	}
 	if req.GetRenew() {
+		if s.cfg.endKind == "renewerror" && s.renews+1 == s.cfg.endAt {
+			// a lease renewal that fails: the renewer gives up, the scan itself is unaffected
+			s.renews++
+			return nil, errBoom
+		}
 		s.renews++
 		resp.MoreResultsInRegion = proto.Bool(true)
 		resp.MoreResults = proto.Bool(true)
@@ -426,7 +431,7 @@ func scanCheck(c scanCfg, out *scanObs, c14 bool) func(res *vrt.Result) *explore
 			return g
 		}
 		got := norm(out.got)
-		ended := c.endKind != ""
+		ended := c.endKind != "" && c.endKind != "renewerror"
 		if !ended {
 			if out.endSeen > 0 {
 				return &explore.Finding{Class: "scan-failed-without-cause", Msg: fmt.Sprintf("%v\n%s", out.endErr, c)}
@@ -575,6 +580,14 @@ func c14Units(thorough bool) []*explore.Unit {
 									rn := base
 									rn.renew = 10 * time.Second
 									units = append(units, scanUnit(rn, true))
+									for at := 1; at <= 2; at++ {
+										if !thorough && (at > 1 || ncells > 1 || len(bounds) > 1) {
+											continue
+										}
+										re := rn
+										re.endKind, re.endAt = "renewerror", at
+										units = append(units, scanUnit(re, true))
+									}
 								}
 								maxAt := 4
 								if thorough {
@@ -616,7 +629,7 @@ func init() {
 	register(&Prop{
 		ID: "C14", Level: "model_checking",
 		Technique:   "the C06 harness with the scan ended at every point (Close, RPC error, cancellation, server-declared end) crossed with every server chunking; server-side scanner table as observer",
-		Rule:        "configurations as C06 (3 rows, 1-2 cells, 1-3 regions, 5 ranges, both directions, row limit 1/inf, partials on/off) x ending {none, Close after k Next calls, cancel after k, RPC error on request j, more_results=false on request j while the region scanner is open} for every k,j <= 4 (thorough 7) x lease renewer on/off; every chunking enumerated. Oracle: error/cancellation reported once then io.EOF; Close idempotent; after draining, no region scanner open on the server; no client thread left (the renewer has exited). Non-trivial = at least one non-default chunking choice. On tier W the scan's context additionally ends at EVERY scheduling step of a thread running client code between the first Next and the end of the scan (2 regions, 2 cells, row limit 1/inf, partials on/off, default chunking) (vrt.GoInterrupt: the event's thread is created waiting for that step and is the default choice there, so its position is a parameter of the unit and costs no deviation) with <=1 (thorough 2) further deviations; there only region scanners whose id the client has used count as left open.",
+		Rule:        "configurations as C06 (3 rows, 1-2 cells, 1-3 regions, 5 ranges, both directions, row limit 1/inf, partials on/off) x ending {none, Close after k Next calls, cancel after k, RPC error on request j, more_results=false on request j while the region scanner is open} for every k,j <= 4 (thorough 7) x lease renewer on/off (and the j-th lease renewal failing: the scan must be unaffected); every chunking enumerated. Oracle: error/cancellation reported once then io.EOF; Close idempotent; after draining, no region scanner open on the server; no client thread left (the renewer has exited). Non-trivial = at least one non-default chunking choice. On tier W the scan's context additionally ends at EVERY scheduling step of a thread running client code between the first Next and the end of the scan (2 regions, 2 cells, row limit 1/inf, partials on/off, default chunking) (vrt.GoInterrupt: the event's thread is created waiting for that step and is the default choice there, so its position is a parameter of the unit and costs no deviation) with <=1 (thorough 2) further deviations; there only region scanners whose id the client has used count as left open.",
 		Assumptions: []string{"as C06"},
 		Quick:       120 * time.Second, Thorough: 20 * time.Minute,
 		Units: c14Units,
